@@ -58,6 +58,10 @@ def make_data() -> dict[str, dict[str, Any]]:
         "L": {"a": lst, "b": [9, lst], "x": 2, "y": nested},
         "L2": {"a": [[2, 1], [1, 2]], "b": [], "x": "z", "y": {"a": [], "b": {}}},
         "E": {},
+        # equal numbers of different type (1 == 1.0 == True, "1"): any memo keyed on ==/hash collides
+        "n_i": {"x": 1, "a": [1, 2, 3], "z": 2}, "n_f": {"x": 1.0, "a": [1.0, 2.0, 3.0], "z": 2.0},
+        "n_b": {"x": True, "a": [True, 2, 3], "z": 2}, "n_s": {"x": "1", "a": ["1", "2", "3"], "z": "2"},
+        "m_t": {"x": True}, "m_f": {"x": False},
     }
 
 
@@ -85,7 +89,20 @@ TEMPLATES: dict[str, str] = {
     "glob": "{{ g }}{% assign g = 'local' %}{{ g }}{{ eg }}{% assign eg = 1 %}",
     "tern": "{{ 'T' if x else 'F' }}{% if a contains 1 %}1{% endif %}{{ x | default: 'd' }}",
     "trans": "{% translate count: x %}one{% plural %}many {{ count }}{% endtranslate %}{{ 'm' | t }}",
+    # one parsed template whose data selects which of two macro definitions a call binds to
+    "macsel": "{% if x %}{% macro m a, b: 'B' %}<{{ a }}:{{ b }}>{% endmacro %}{% else %}{% macro m b, a: 'A' %}<{{ a }}:{{ b }}>{% endmacro %}{% endif %}{% call m 'one' %}",
+    "withsel": "{% if x %}{% with v: 1 %}{{ v }}{% endwith %}{% else %}{% with v: 2, w: 3 %}{{ v }}{{ w }}{% endwith %}{% endif %}{% cycle x: 'a', 'b' %}",
 }
+# every filter applied to x / a with a second operand z: outputs for equal numbers of different type
+NUM_FILTERS = ["abs", "at_least", "at_most", "ceil", "divided_by", "floor", "minus", "modulo", "plus", "round", "times",
+               "sum", "sort", "sort_numeric", "uniq", "first", "last", "join", "size", "json", "default", "append",
+               "date", "slice", "truncate", "compact", "reverse", "concat", "index", "map", "where"]
+for _f in NUM_FILTERS:
+    # one filter application per template: an error in one form must not mask the other
+    TEMPLATES["nx_" + _f] = "{{ x | %s }}" % _f
+    TEMPLATES["nz_" + _f] = "{{ x | %s: z }}" % _f
+    TEMPLATES["na_" + _f] = "{{ a | %s }}" % _f
+    TEMPLATES["nb_" + _f] = "{{ a | %s: z }}" % _f
 
 # families: (name, [(template id, data id, env id)])  env ids: "E" plain caching-dict env, "A" autoescape env
 FAMILIES: dict[str, list[tuple[str, str, str]]] = {
@@ -97,13 +114,20 @@ FAMILIES: dict[str, list[tuple[str, str, str]]] = {
               ("flat", "L", "E"), ("sort", "L2", "E"), ("map", "L2", "E"), ("asg", "L2", "E"), ("flat", "L2", "A")],
     "partials": [("render", "i1", "E"), ("render", "s1", "A"), ("include", "L", "E"), ("extends", "i1", "E"),
                  ("extends", "s1", "E"), ("leafdirect", "i1", "E"), ("macdef", "i1", "E"), ("maccall", "s1", "E"),
-                 ("glob", "E", "E"), ("glob", "i1", "A"), ("tern", "L", "E"), ("trans", "i1", "E"), ("trans", "L", "A")],
+                 ("glob", "E", "E"), ("glob", "i1", "A"), ("tern", "L", "E"), ("trans", "i1", "E"), ("trans", "L", "A"),
+                 ("macsel", "m_t", "E"), ("macsel", "m_f", "E"), ("withsel", "m_t", "E"), ("withsel", "m_f", "E")],
 }
+# one small family per filter: the same template with inputs that compare equal but differ in type
+for _f in NUM_FILTERS:
+    for _t in ("nx_", "nz_", "na_", "nb_"):
+        FAMILIES["num:" + _t + _f] = [(_t + _f, d, "E") for d in ("n_i", "n_f", "n_b", "n_s")]
 
 
 def all_actions() -> list[tuple[str, str, str]]:
     seen: list[tuple[str, str, str]] = []
-    for acts in FAMILIES.values():
+    for fam, acts in FAMILIES.items():
+        if fam.startswith("num:"):
+            continue  # the per-filter numeric families are explored within the family only
         for a in acts:
             if a not in seen:
                 seen.append(a)
@@ -284,8 +308,19 @@ class C17(Check):
             sh.append(("pair", a, table))
         d = self.depth(tier)
         for fam, facts in FAMILIES.items():
+            if fam.startswith("num:"):
+                continue
             for a in facts:
                 sh.append(("fam", fam, d, [a], table))
+        # numeric-equality families: one shard per filter pair of templates; pristine outputs for these are
+        # computed by the shard itself in ONE forked child per action batch (see run_shard)
+        nums = sorted(f for f in FAMILIES if f.startswith("num:"))
+        for i in range(0, len(nums), 8):
+            sh.append(("num", nums[i : i + 8], table))
+        # generic: every program of the shared corpus rendered twice on the SAME parsed template with two
+        # different data sets (node-level memoisation keyed without the data shows here)
+        for i in range(16):
+            sh.append(("prog", i, 16, table))
         return sh
 
     def histories(self, shard: Any) -> Iterator[list[tuple[str, str, str]]]:
@@ -306,7 +341,29 @@ class C17(Check):
         res = Result()
         for a, out in shard[-1]:
             _PRISTINE.setdefault(tuple(a), out)
-        hists = list(self.histories(shard))
+        if shard[0] == "prog":
+            self.run_programs(shard[1], shard[2], tier, res)
+            return res
+        if shard[0] == "num":
+            # pristine outputs of the numeric actions: each action alone in its own process state; to keep the
+            # number of forks small the actions of one (filter, data) are batched per DATA SET (four children),
+            # each child running one action per filter template on a fresh HistoryRunner -- different filters do
+            # not share inputs that could collide with themselves within a batch, and any cross-filter effect
+            # would itself be a history dependence that the family histories then expose as a mismatch.
+            fams = shard[1]
+            for d in ("n_i", "n_f", "n_b", "n_s"):
+                batch = [[a] for f in fams for a in FAMILIES[f] if a[1] == d]
+                outs = run_sequence_in_child(batch)
+                for h, recs in zip(batch, outs):
+                    _PRISTINE.setdefault(tuple(h[0]), recs[0]["out"])
+            hists = []
+            for f in fams:
+                facts = FAMILIES[f]
+                for n in (2,) if tier == "quick" else (2, 3):
+                    for combo in itertools.product(facts, repeat=n):
+                        hists.append(list(combo))
+        else:
+            hists = list(self.histories(shard))
         # one forked child per shard: its histories run back to back in one process (no reset in between)
         all_recs = run_sequence_in_child(hists)
         minimised = 0
@@ -338,7 +395,71 @@ class C17(Check):
         res.fixpoint = False
         return res
 
+    def run_programs(self, i: int, n: int, tier: str, res: Result) -> None:
+        """Same parsed template, two data sets in a row; the second output must equal its own first-render output."""
+        from mc.gen import programs as G
+
+        progs = [p for j, p in enumerate(G.programs(2, 2, level="core" if tier == "quick" else "full", extra=True))
+                 if j % n == i]
+
+        def work() -> list[Any]:
+            from mc import util as U
+
+            env = U.make_env(flags=FLAGS, templates=G.PARTIALS, extra=True)
+            out = []
+            for p in progs:
+                pt = U.parse(env, p.source)
+                if not pt.ok:
+                    out.append(None)
+                    continue
+                firsts = {}
+                for lab, data in G.DATA_SETS:
+                    t1 = env.from_string(p.source)
+                    firsts[lab] = U.render(t1, dict(data)).kind()
+                bad = []
+                for (la, da), (lb, db) in itertools.permutations(G.DATA_SETS, 2):
+                    t = env.from_string(p.source)
+                    U.render(t, dict(da))
+                    second = U.render(t, dict(db)).kind()
+                    if second != firsts[lb]:
+                        bad.append((la, lb, second, firsts[lb]))
+                out.append(bad)
+            return out
+
+        results = _in_child(work)
+        for p, bad in zip(progs, results):
+            if bad is None:
+                continue
+            res.states += 1
+            res.transitions += 60
+            res.traces += 30
+            res.case(nontrivial=["prog", p.source], outcome="prog:viol" if bad else "prog:ok", n=30)
+            for la, lb, got, want in bad[:1]:
+                res.violation({"clause": "history-independence", "family": "same-template-two-data", "construct": p.source[:80]},
+                              f"template {p.source!r}: rendered with {la} and then with {lb} on the same parsed template gives "
+                              f"{got!r}; a fresh parse rendered with {lb} gives {want!r}",
+                              {"program": p.source, "first": la, "second": lb})
+
     def replay(self, case: Any) -> list[dict[str, Any]]:
+        if "program" in case:
+            from mc import util as U
+            from mc.gen import programs as G
+
+            def work() -> Any:
+                env = U.make_env(flags=FLAGS, templates=G.PARTIALS, extra=True)
+                data = dict(G.DATA_SETS)
+                want = U.render(env.from_string(case["program"]), dict(data[case["second"]])).kind()
+                t = env.from_string(case["program"])
+                U.render(t, dict(data[case["first"]]))
+                got = U.render(t, dict(data[case["second"]])).kind()
+                return got, want
+
+            got, want = _in_child(work)
+            if got != want:
+                return [{"signature": {"clause": "history-independence", "family": "same-template-two-data",
+                                       "construct": case["program"][:80]},
+                         "what": f"{case['program']!r}: second render {got!r} != fresh {want!r}", "case": case}]
+            return []
         if "sequence" in case:
             seq = [[tuple(a) for a in h] for h in case["sequence"]]
             recs = run_sequence_in_child(seq)  # type: ignore[arg-type]
